@@ -523,6 +523,12 @@ class SymReal(SymNum):
         if hit is not None:
             return hit[1]
         res = self._round(n)
+        if getattr(CTX, 'round_congruence', False) and isinstance(res, Sym):
+            # opt-in (harnesses that compare two independently computed roundings for equality): round is a function --
+            # equal arguments give equal results, also when the two argument terms differ syntactically
+            for (tid, n2), (t2, r2) in list(CTX.round_cache.items()):
+                if n2 == n and isinstance(r2, Sym):
+                    CTX.solver.add(z3.Implies(self.t == t2, res.t == r2.t))
         CTX.round_cache[key] = (self.t, res)  # keep the term alive so ids are not reused
         return res
 
@@ -1693,6 +1699,7 @@ def explore(fn, mk_inputs, allowed_exc=(), max_paths=20000, timeout_s=600, solve
         c.pending = pending
         c.fresh = 0
         c.round_cache = {}
+        c.round_congruence = False
         c.active = True
         names = {}
         try:
